@@ -1,4 +1,5 @@
 use crate::engine::{PropertyDef, Tier};
+pub mod binsubs;
 pub mod c01;
 pub mod c02;
 pub mod c03;
